@@ -133,7 +133,7 @@ Definition wild_path (f : string) : bool :=
   match Regex.findall false WILD_PAT f with Some [] => false | _ => true end.
 Definition has_case (s : string) : bool := negb (String.eqb s (lower s)).
 Definition has_special (f : string) : bool :=
-  existsb (fun c => let n := N_of_ascii c in ((n =? 46) || (n =? 126))%N) (list_of_string f).
+  existsb (fun c => let n := N_of_ascii c in existsb (N.eqb n) [46; 126; 40; 41; 43; 36; 94; 124; 91; 93; 123; 125; 92]%N) (list_of_string f).     (* . ~ ( ) + $ ^ | [ ] { } \ *)
 Definition has_tilde_tilde (f : string) : bool := negb (str_find f "~~" 0 =? -1)%Z.
 (* defect classes of _search on the unchanged tree *)
 Definition search_class (f w : string) (s : Z) : string :=
